@@ -2,6 +2,7 @@
 #pragma once
 #include "verif_common.h"
 #include <new>
+#include <iterator>
 #include <map>
 #include <stdexcept>
 #include <type_traits>
@@ -52,7 +53,8 @@ public:
 };
 
 // ---------------------------------------------------------------- element types
-struct ElemCounters { long live = 0, constructed = 0, destroyed = 0, copies = 0, moves = 0; long copyCountdown = -1; bool firedCopy = false; };
+struct ElemCounters { long live = 0, constructed = 0, destroyed = 0, copies = 0, moves = 0; long copyCountdown = -1; bool firedCopy = false;
+	long assignCountdown = -1; bool firedAssign = false; long assigns = 0, swaps = 0; };
 inline ElemCounters& ec() { static ElemCounters c; return c; }
 
 // trivially relocatable, chosen size / alignment
@@ -92,6 +94,47 @@ struct ElemCO {
 	~ElemCO() { state = 0xDEAD; --ec().live; ++ec().destroyed; }
 };
 
+// an assignment operator that is armed throws before it has touched the destination object
+inline void assignPoint() {
+	if (ec().assignCountdown == 0) { ec().assignCountdown = -1; ec().firedAssign = true; throw std::runtime_error("assign"); }
+	if (ec().assignCountdown > 0) --ec().assignCountdown;
+}
+
+// "throwing move but noexcept swap" (copy-and-swap idiom): no move constructor, so that moving is the copy construction, which
+// may throw when armed (copyPoint) - momo (gcc / clang, MOMO_IS_NOTHROW_RELOCATABLE_APPENDIX) treats every type that declares a move
+// constructor as nothrow relocatable, noexcept or not. Assignment takes its argument by value (may throw while the argument is
+// built), ADL swap is noexcept.
+// momo: not nothrow relocatable, not nothrow move assignable, nothrow swappable => isNothrowAnywayAssignable and isNothrowShiftable
+// (ObjectManager::pvAssignAnyway / pvShiftNothrow swap variants; contiguous tree nodes).
+struct ElemSW {
+	uint32_t id; uint32_t state;
+	explicit ElemSW(uint32_t i = 0) : id(i), state(0xA11CE) { ++ec().live; ++ec().constructed; }
+	ElemSW(const ElemSW& o) : id((copyPoint(), o.id)), state(0xA11CE) { ++ec().live; ++ec().constructed; ++ec().copies; }
+	ElemSW& operator=(ElemSW o) { swap(*this, o); ++ec().assigns; return *this; }
+	friend void swap(ElemSW& a, ElemSW& b) noexcept { uint32_t i = a.id; a.id = b.id; b.id = i; uint32_t s = a.state; a.state = b.state; b.state = s; ++ec().swaps; }
+	~ElemSW() { state = 0xDEAD; --ec().live; ++ec().destroyed; }
+};
+
+// copy-only, copy construction may throw when armed, copy assignment is noexcept:
+// not nothrow relocatable, but nothrow-anyway-assignable (through is_nothrow_move_assignable)
+struct ElemCA {
+	uint32_t id; uint32_t state;
+	explicit ElemCA(uint32_t i = 0) : id(i), state(0xA11CE) { ++ec().live; ++ec().constructed; }
+	ElemCA(const ElemCA& o) : id((copyPoint(), o.id)), state(0xA11CE) { ++ec().live; ++ec().constructed; ++ec().copies; }
+	ElemCA& operator=(const ElemCA& o) noexcept { id = o.id; state = o.state; ++ec().assigns; return *this; }
+	~ElemCA() { state = 0xDEAD; --ec().live; ++ec().destroyed; }
+};
+
+// copy-only, copy construction may throw when armed (copyPoint) AND copy assignment may throw when armed (assignPoint):
+// not nothrow relocatable, not nothrow-anyway-assignable (the category of ElemCO, with an assignment that really throws)
+struct ElemCT {
+	uint32_t id; uint32_t state;
+	explicit ElemCT(uint32_t i = 0) : id(i), state(0xA11CE) { ++ec().live; ++ec().constructed; }
+	ElemCT(const ElemCT& o) : id((copyPoint(), o.id)), state(0xA11CE) { ++ec().live; ++ec().constructed; ++ec().copies; }
+	ElemCT& operator=(const ElemCT& o) { assignPoint(); id = o.id; state = o.state; ++ec().assigns; return *this; }
+	~ElemCT() { state = 0xDEAD; --ec().live; ++ec().destroyed; }
+};
+
 template<typename E> inline uint32_t idOf(const E& e) { return e.id; }
 inline uint32_t idOf(uint32_t e) { return e; }
 inline uint32_t idOf(uint64_t e) { return (uint32_t)e; }
@@ -124,5 +167,89 @@ inline size_t famHash(uint32_t id) {
 	if (h.throwCountdown > 0) --h.throwCountdown;
 	return (size_t)hashFam(h.fam, id);
 }
+
+// ---------------------------------------------------------------- counted key / mapped types with several constructors
+// (std-interface harnesses: piecewise and argument-less emplace, key_type&& overloads, heterogeneous lookup).
+// CKey: explicit from int (so that an `int` argument is a genuinely heterogeneous key), from (hi, lo) = hi * 16 + lo, default = 0.
+// A move leaves the value in place and flags the source (`moved`), so "not moved from when nothing is inserted" is observable.
+// Every construction / destruction is counted: live objects must equal the number of stored elements.
+struct CountedCtl { long liveKeys = 0, liveVals = 0; long keyMoves = 0, keyCopies = 0, valMoves = 0, valCopies = 0; };
+inline CountedCtl& cc() { static CountedCtl c; return c; }
+struct CKey {
+	int k; int moved;
+	CKey() : k(0), moved(0) { ++cc().liveKeys; }
+	explicit CKey(int k_) : k(k_), moved(0) { ++cc().liveKeys; }
+	CKey(int hi, int lo) : k(hi * 16 + lo), moved(0) { ++cc().liveKeys; }
+	CKey(const CKey& o) : k(o.k), moved(0) { ++cc().liveKeys; ++cc().keyCopies; }
+	CKey(CKey&& o) noexcept : k(o.k), moved(0) { o.moved = 1; ++cc().liveKeys; ++cc().keyMoves; }
+	CKey& operator=(const CKey& o) { k = o.k; moved = 0; return *this; }
+	CKey& operator=(CKey&& o) noexcept { k = o.k; moved = 0; o.moved = 1; return *this; }
+	~CKey() { --cc().liveKeys; }
+	friend bool operator==(const CKey& a, const CKey& b) { return a.k == b.k; }
+	friend bool operator!=(const CKey& a, const CKey& b) { return a.k != b.k; }
+	friend bool operator<(const CKey& a, const CKey& b) { return a.k < b.k; }
+};
+struct CVal {
+	int v; int moved;
+	CVal() : v(0), moved(0) { ++cc().liveVals; }
+	explicit CVal(int v_) : v(v_), moved(0) { ++cc().liveVals; }
+	CVal(int a, int b) : v(a * 1000 + b), moved(0) { ++cc().liveVals; }
+	CVal(const CVal& o) : v(o.v), moved(0) { ++cc().liveVals; ++cc().valCopies; }
+	CVal(CVal&& o) noexcept : v(o.v), moved(0) { o.moved = 1; ++cc().liveVals; ++cc().valMoves; }
+	CVal& operator=(const CVal& o) { v = o.v; moved = 0; return *this; }
+	CVal& operator=(CVal&& o) noexcept { v = o.v; moved = 0; o.moved = 1; return *this; }
+	~CVal() { --cc().liveVals; }
+	friend bool operator==(const CVal& a, const CVal& b) { return a.v == b.v; }
+	friend bool operator!=(const CVal& a, const CVal& b) { return a.v != b.v; }
+	friend bool operator<(const CVal& a, const CVal& b) { return a.v < b.v; }
+};
+// a heterogeneous key that is equivalent to SEVERAL CKeys: all keys k with k / 10 == d (a legal partition-point key for the
+// ordered containers with a transparent comparator)
+struct Decade { int d; };
+// transparent, stateful comparator: ascending or (desc) descending by k; accepts CKey, int and Decade
+struct LessCK {
+	typedef void is_transparent;
+	bool desc; int id;
+	explicit LessCK(bool desc_ = false, int id_ = 0) : desc(desc_), id(id_) {}
+	bool lt(int a, int b) const { return desc ? b < a : a < b; }
+	bool operator()(const CKey& a, const CKey& b) const { return lt(a.k, b.k); }
+	bool operator()(const CKey& a, int b) const { return lt(a.k, b); }
+	bool operator()(int a, const CKey& b) const { return lt(a, b.k); }
+	bool operator()(const CKey& a, Decade b) const { return lt(a.k / 10, b.d); }
+	bool operator()(Decade a, const CKey& b) const { return lt(a.d, b.k / 10); }
+};
+// transparent, stateful hash / equality over CKey and int (hash family of hc(), xor a salt that is part of the functor's state)
+struct HashCK {
+	typedef void is_transparent;
+	uint32_t salt;
+	explicit HashCK(uint32_t salt_ = 0) : salt(salt_) {}
+	size_t operator()(const CKey& a) const { return famHash((uint32_t)a.k ^ salt); }
+	size_t operator()(int a) const { return famHash((uint32_t)a ^ salt); }
+};
+struct EqCK {
+	typedef void is_transparent;
+	int id;
+	explicit EqCK(int id_ = 0) : id(id_) {}
+	bool operator()(const CKey& a, const CKey& b) const { return a.k == b.k; }
+	bool operator()(const CKey& a, int b) const { return a.k == b; }
+	bool operator()(int a, const CKey& b) const { return a == b.k; }
+};
+// single-pass input iterator over a vector (iterator_category = input_iterator_tag): the range overloads must not rely on
+// multi-pass / distance
+// byValue: operator* returns a prvalue (a "generating" iterator: momo's range inserts then take their element-wise path)
+template<typename T, bool byValue = false>
+struct InputIt {
+	typedef std::input_iterator_tag iterator_category;
+	typedef T value_type; typedef ptrdiff_t difference_type; typedef const T* pointer;
+	typedef typename std::conditional<byValue, T, const T&>::type reference;
+	const std::vector<T>* v; size_t i;
+	InputIt(const std::vector<T>& v_, size_t i_) : v(&v_), i(i_) {}
+	reference operator*() const { return (*v)[i]; }
+	pointer operator->() const { return &(*v)[i]; }
+	InputIt& operator++() { ++i; return *this; }
+	InputIt operator++(int) { InputIt t = *this; ++i; return t; }
+	friend bool operator==(const InputIt& a, const InputIt& b) { return a.i == b.i; }
+	friend bool operator!=(const InputIt& a, const InputIt& b) { return a.i != b.i; }
+};
 
 } // namespace vf
